@@ -127,3 +127,41 @@ def run(prog, rec):
                 ses.do({"op": "rel", "in": ["phi12a", "phi12b"], "out": [],
                         "args": {"how": "same", "clause": "C18.product_law"}})
     ses.close()
+
+
+def run_builders(prog, rec):
+    """The shipped model builders called directly (prog = {"driver": "localbuilders", "tid", "calls": [...]})."""
+    import symmray as sr
+
+    ses = Session(rec, prog["tid"], {}, {})
+    for k, c in enumerate(prog["calls"]):
+        name, sym = c["name"], c["sym"]
+        scale = c.get("scale", 1)
+        args = {"name": name, "sym": sym, "t": int(c.get("t", 1)), "V": int(c.get("V", 0)),
+                "Ua": int(c.get("U", [0, 0])[0]), "Ub": int(c.get("U", [0, 0])[1]),
+                "mua": int(c.get("mu", [0, 0])[0]), "mub": int(c.get("mu", [0, 0])[1]),
+                "z": [int(z) for z in c.get("z", [1, 1])], "scale": int(scale)}
+        try:
+            if name == "hubbard":
+                U = c["U"] if c.get("pair_args", True) else c["U"][0]
+                mu = c["mu"] if c.get("pair_args", True) else c["mu"][0]
+                g = sr.fermi_hubbard_local_array(sym, t=c["t"], U=tuple(U) if isinstance(U, list) else U,
+                                                 mu=tuple(mu) if isinstance(mu, list) else mu, coordinations=tuple(c["z"]))
+            elif name == "hubbard_spinless":
+                mu = c["mu"] if c.get("pair_args", True) else c["mu"][0]
+                g = sr.fermi_hubbard_spinless_local_array(sym, t=c["t"], V=c["V"], mu=tuple(mu) if isinstance(mu, list) else mu,
+                                                          coordinations=tuple(c["z"]))
+            elif name == "number_spinless":
+                g = sr.fermi_number_operator_spinless_local_array(sym)
+            elif name == "number_spinful":
+                g = sr.fermi_number_operator_spinful_local_array(sym)
+            else:
+                g = sr.fermi_spin_operator_local_array(sym)
+            if scale != 1:
+                g = g * scale
+            ses.regs = {f"G{k}": g}
+            ses._emit("local_builder", args, [], [f"G{k}"], "method", "ok", "")
+        except Exception as e:  # noqa
+            ses.regs = {}
+            ses._emit("local_builder", args, [], [], "method", "raise", type(e).__name__)
+    ses.close()
